@@ -503,9 +503,8 @@ theorem pow_nonint_raises (pyPow : Rat → Rat → Rat) (x : UVal) (e : Rat)
 
 /-- value–value and value–number comparisons (either order) are the comparison of the SI values; across
 dimensions `==` is `False`, `!=` is `True` and the orderings raise.
-FULL STATEMENT (not provable, see the witness below): `∀ a b wf, evalCmp … = .ok (.bool v) ↔ evalCmpSI … = .ok v`, and
-`evalCmp` raises iff `evalCmpSI` is an error — it fails for a `UnitArray` operand of an ordering operator, where the
-code returns an exception object. This `_partial` theorem excludes array operands. -/
+This lemma excludes array operands and does not depend on how the ordering methods treat them; the full statement,
+including arrays, is `cmp_si` below. -/
 theorem cmp_si_partial (op : CmpOp) (a b : Operand) (ha : a.wf) (hb : b.wf)
     (na : ∀ x, a ≠ .arr x) (nb : ∀ x, b ≠ .arr x) :
     (∀ v, cmpOp op a b = .ok (.bool v) ↔ siCmp op (siOf a) (siOf b) = .ok v) ∧
@@ -540,6 +539,48 @@ theorem cmp_si_partial (op : CmpOp) (a b : Operand) (ha : a.wf) (hb : b.wf)
           mul_lt_mul_iff_of_pos_right, mul_le_mul_iff_of_pos_right]
         all_goals (first | rfl | (congr; done) | (constructor <;> (by_cases hh : x.v = y.v * convFactor y.u.sys x.u.sys y.u.dim <;> simp [hh])))
       · cases op <;> simp [cmpOp, UVal.cmp, siCmp, siOf, Res.isError, hd]
+
+/-- on the tree under test, the last branch of every ordering method of `UnitValue` raises its `TypeError`
+(read from the regenerated source; false on a tree where it `return`s the exception, cf. finding
+`cmp-array-returns-exception-object`, fixed by 8d48d0b) -/
+theorem ordering_else_raises : ∀ op : CmpOp, op.isOrdering = true → cmpElseRaises op = true := by
+  intro op h
+  cases op <;> first | (exact absurd h (by decide)) | decide +kernel
+
+/-- **comparisons, all pairings.**  The code's comparison returns the boolean `v` iff the SI-level comparison does,
+raises iff the SI-level comparison is an error, and never returns an exception object:
+* scalars (value–value of one dimension, value–number, number–value): comparison of the SI values, the number read
+  in the quantity's units;
+* different dimensions: `==` is `False`, `!=` is `True`, the orderings raise;
+* a `UnitArray` on either side (array–value, value–array, array–array, array–number, number–array): the orderings
+  raise (`UnitValue`'s method raises `TypeError`, or Python does since `UnitArray` defines no comparison);
+  `==` is `False` and `!=` is `True` — `UnitArray` has no `__eq__`, Python compares object identity, and two
+  operands of an expression are distinct objects.  (`x == x` for the same array object is `True` in Python; an
+  expression tree cannot denote that.) -/
+theorem cmp_si (op : CmpOp) (a b : Operand) (ha : a.wf) (hb : b.wf) :
+    (∀ v, cmpOp op a b = .ok (.bool v) ↔ siCmp op (siOf a) (siOf b) = .ok v) ∧
+    ((cmpOp op a b).isError = true ↔ (siCmp op (siOf a) (siOf b)).isError = true) ∧
+    cmpOp op a b ≠ .ok .excObject := by
+  have r1 := ordering_else_raises .lt rfl
+  have r2 := ordering_else_raises .le rfl
+  have r3 := ordering_else_raises .gt rfl
+  have r4 := ordering_else_raises .ge rfl
+  cases a with
+  | num m =>
+    cases b with
+    | arr y => cases op <;> simp [cmpOp, siCmp, siOf, Res.isError]
+    | num n => exact cmp_si_partial op _ _ ha hb (fun x h => by cases h) (fun x h => by cases h)
+    | val y => exact cmp_si_partial op _ _ ha hb (fun x h => by cases h) (fun x h => by cases h)
+  | val x =>
+    cases b with
+    | arr y => cases op <;> simp [cmpOp, UVal.cmp, siCmp, siOf, Res.isError, r1, r2, r3, r4]
+    | num n => exact cmp_si_partial op _ _ ha hb (fun x h => by cases h) (fun x h => by cases h)
+    | val y => exact cmp_si_partial op _ _ ha hb (fun x h => by cases h) (fun x h => by cases h)
+  | arr x =>
+    cases b with
+    | arr y => cases op <;> simp [cmpOp, siCmp, siOf, Res.isError]
+    | num n => cases op <;> simp [cmpOp, siCmp, siOf, Res.isError]
+    | val y => cases op <;> simp [cmpOp, UVal.cmp, CmpOp.swap, siCmp, siOf, Res.isError, r1, r2, r3, r4]
 
 /-- different dimensions: the orderings raise, `==` is `False`, `!=` is `True` -/
 theorem cmp_other_dim (x y : UVal) (hd : x.u.dim ≠ y.u.dim) :
